@@ -240,7 +240,9 @@ def resolve_fn(fns, path: str, impl_sub=None):
         if len(free) == 1:
             cands = free
     if len(cands) != 1:
-        raise ExtractError("anchor-lost fn %s (impl=%s): %d candidates" % (path, impl_sub, len(cands)))
+        e = ExtractError("anchor-lost fn %s (impl=%s): %d candidates" % (path, impl_sub, len(cands)))
+        e.fn_gone = (len(cands) == 0)
+        raise e
     return cands[0]
 
 
@@ -578,6 +580,62 @@ def splice_module(mod: str, src: str, recs, report, havoc=(), variant="main"):
     def add_attr(f, text):
         fn_attrs.setdefault(f.item_start, []).append(text)
 
+    # pre-pass: ORPHANED records. A contract (and its proof hints) for a function that no longer exists has nothing to be spliced
+    # into; dropping it assumes nothing - whoever called that function now calls something else, and is verified against that.
+    # The run goes on, so that the remaining obligations (typically the caller's) are still decided; the evidence lists the
+    # orphaned records, and the driver counts a property whose OWN top-level function vanished as undecided.
+    fn_kinds = ("fn", "assumed", "external", "attr", "loop", "before", "after", "println", "closure", "isolate", "atexit", "dropprint")
+    kept_recs = []
+    for r0 in recs:
+        if r0.kind in fn_kinds and r0.args:
+            try:
+                resolve_fn(fns, r0.args[0], r0.opts.get("impl"))
+            except ExtractError as e0:
+                if getattr(e0, "fn_gone", False):
+                    report.setdefault("orphaned_records", []).append({"module": mod, "kind": r0.kind, "fn": r0.args[0], "origin": r0.origin,
+                                                                      "props": [x for x in r0.opts.get("props", "").split(",") if x]})
+                    continue
+                raise
+        kept_recs.append(r0)
+    recs = kept_recs
+    # pre-pass for @stdout: a printing method of the tracked type whose contract says nothing about the output resource gets the
+    # DEFAULT output clause - it only appends, and none of the lines it writes is one a GUI waits for (uciok / readyok / bestmove) -
+    # together with the shape-independent exit hint that proves it. (So adding an `info string` line to, say, the position
+    # command is not an alarm; writing a second `readyok` there is.)
+    for rec0 in [r for r in recs if r.kind == "stdout"]:
+        tname0 = rec0.args[0]
+        meths0 = [f for f in fns if f.has_body and f.container is not None and f.container_kind == "impl" and impl_type_name(f.container) == tname0]
+        P0 = {f.name for f in meths0 if re.search(r"\b(?:println|print|eprintln|eprint)!\s*\(", masked[f.sig_end:f.body_end])}
+        ch0 = True
+        while ch0:
+            ch0 = False
+            for f in meths0:
+                if f.name not in P0 and any(re.search(r"\bself\s*\.\s*%s\s*\(" % re.escape(n), masked[f.sig_end:f.body_end]) for n in P0):
+                    P0.add(f.name)
+                    ch0 = True
+        for f in meths0:
+            if f.name not in P0:
+                continue
+            mine = [r for r in recs if r.kind in ("fn", "assumed") and r.args and r.args[0].split("::")[-1] == f.name and resolve_fn(fns, r.args[0], r.opts.get("impl")) is f]
+            if any("out__" in "\n".join(r.body) for r in mine):
+                continue
+            default_clause = "        crate::stdspec::out_ext(old(out__).lines, final(out__).lines) && crate::stdspec::count_kind(crate::stdspec::out_since(old(out__).lines, final(out__).lines), 0) == 0 && crate::stdspec::count_kind(crate::stdspec::out_since(old(out__).lines, final(out__).lines), 1) == 0 && crate::stdspec::count_kind(crate::stdspec::out_since(old(out__).lines, final(out__).lines), 2) == 0,   // [C16] default output clause (N6)"
+            if mine:
+                r = mine[0]
+                if any(re.match(r"\s*ensures\b", ln) for ln in r.body):
+                    r.body.append(default_clause)
+                else:
+                    r.body.append("    ensures")
+                    r.body.append(default_clause)
+            else:
+                recs.append(Rec("fn", ["%s::%s" % (tname0, f.name)], {"props": rec0.opts.get("props", "C16")}, ["    ensures", default_clause], rec0.origin + "#default-out"))
+            recs.append(Rec("atexit", ["%s::%s" % (tname0, f.name)], {}, [
+                "        proof {",
+                "            reveal_strlit(\"uciok\"); reveal_strlit(\"readyok\");",
+                "            assert(out__.lines.take(old(out__).lines.len() as int) =~= old(out__).lines);",
+                "            crate::stdspec::lemma_count_since(old(out__).lines, out__.lines, 0); crate::stdspec::lemma_count_since(old(out__).lines, out__.lines, 1); crate::stdspec::lemma_count_since(old(out__).lines, out__.lines, 2);",
+                "        }"], rec0.origin + "#default-out"))
+            report.setdefault("default_out_clause", []).append("%s::%s::%s" % (mod, tname0, f.name))
     iso_fns = set()
     for rec in recs:
         if rec.kind == "isolate":
